@@ -1,5 +1,6 @@
 """C13 - each facade call sends exactly one command and decodes what the device returned."""
 import copy
+import os
 import inspect
 import itertools
 
@@ -17,8 +18,8 @@ LEVEL = "exploration"
 TECHNIQUE = "exhaustive enumeration of facade method x command set x every subset of optional keyword arguments x device-provided buffer contents over a recording device; call count, CDB (independent spec decoder), buffer identity and decode-after-execute ordering are checked on every call"
 RULE = ("38 facade methods x every command set whose table offers the command x every subset of the optional keyword arguments (from "
         "inspect.signature of the command class; each supplied argument takes 2 non-default values) x caller buffers of kind bytearray / bytes / memoryview window x 2-3 well-formed device responses chosen to "
-        "match the request; plus every method x set x 10 exception types raised by the device *after* it took the command (exactly one submission, the same exception object reaches the caller) (VPD page by page code, mode page by page code, PR IN data by service action, disc information by data type, READ CD "
-        "sectors by selection bits); READ/WRITE(10,12,16) through the real SCSIDevice / ISCSIDevice and the stand-in bindings with transfers of {1,2,7Fh,80h,7FFFh,8000h,8001h,40000,FFFFh} blocks of 512 bytes (one submission, whole buffers, iSCSI expected transfer length = buffer length). after every successful call: decode the returned command again, submit it again, repeat the call on the same facade (same CDB, one submission each, equal result, fresh buffers). Non-trivial = at least one optional argument supplied or a non-SPC command set; distinct = distinct (method, "
+        "match the request and 8 truncated ones (a length field announcing more than was transferred: ~500 bytes at offsets 0-1, 0-3, 4-7, 2-3, FFh at 4, FFFEh and 10000h at 0; all bytes FFh); plus every method x set x 10 exception types raised by the device *after* it took the command (exactly one submission, the same exception object reaches the caller) (VPD page by page code, mode page by page code, PR IN data by service action, disc information by data type, READ CD "
+        "sectors by selection bits); READ/WRITE(10,12,16) through the real SCSIDevice / ISCSIDevice and the stand-in bindings with transfers of {1,2,7Fh,80h,7FFFh,8000h,8001h,40000,FFFFh} blocks of 512 bytes (one submission, whole buffers, iSCSI expected transfer length = buffer length); 7 methods as the first call after a re-plug whose re-open failed once (EACCES/EMFILE/EBUSY) on a real SCSIDevice: one submission to the node now at the path. after every successful call: decode the returned command again, submit it again, repeat the call on the same facade (same CDB, one submission each, equal result, fresh buffers). Non-trivial = at least one optional argument supplied or a non-SPC command set; distinct = distinct (method, "
         "set, argument dict, response).")
 ASSUMPTIONS = [
     "the recording device is a plain object with opcodes/execute/close: it notes call count, a copy of the CDB, id() of both buffers and whether cmd.result was already populated, then fills data-in in place",
@@ -100,8 +101,25 @@ def optional_params(method):
 F_BLOCK = {"Read10", "Read12", "Read16", "Write10", "Write12", "Write16", "WriteSame10", "WriteSame16"}
 
 
+OVERSIZE = {2: (0, b"\x01\xf2"), 3: (0, b"\x00\x00\x01\xf8"), 4: (4, b"\x00\x00\x01\xf0"), 5: (4, b"\xff"), 6: (2, b"\x01\xf0"), 7: None,
+            8: (0, b"\xff\xfe"), 9: (0, b"\x00\x01\x00\x00")}
+
+
 def response_for(method, kw, variant):
-    """a well-formed device response matching the request, or None for commands without data-in"""
+    """a well-formed device response matching the request, or None for commands without data-in.
+    Variants 2-9: the same response with one of its length fields announcing far more than was transferred (a device that has more
+    data than the allocation length reports the full length and truncates the transfer), variant 7: every byte FFh."""
+    if variant >= 2:
+        base = response_for(method, kw, 0)
+        if base is None or method in ("read10", "read12", "read16", "readcd") or method.startswith("atapassthrough"):
+            return base
+        if OVERSIZE[variant] is None:
+            return b"\xff" * len(base)
+        off, patch = OVERSIZE[variant]
+        b = bytearray(base)
+        if len(b) >= off + len(patch):
+            b[off:off + len(patch)] = patch
+        return bytes(b)
     if method == "inquiry":
         if kw.get("evpd"):
             pc = kw.get("page_code", 0)
@@ -274,11 +292,70 @@ def run_transport(case, obs=None):
     return out
 
 
+RECOVERY_METHODS = ["testunitready", "inquiry", "readcapacity10", "readcapacity16", "read10", "reportluns", "modesense6"]
+
+
+def run_recovery(case, obs=None):
+    """SG_IO device whose node is replaced; the re-open fails once (EACCES / EMFILE), the caller sees that error; the NEXT facade call
+    must again hand exactly one command to the device (the node now at the path) and decode its answer"""
+    import builtins
+
+    from vf import harness
+    _, method, fault_errno = case
+    out = []
+    rig = harness.Rig("sgio", 0x00)
+    import pyscsi.pyscsi.scsi_device as devmod      # (after the rig: the first rig of a process re-imports the library against the stand-ins)
+    armed = [False]
+
+    def failing_open(file, *a, **k):
+        if armed[0] and file == rig.node.path:
+            armed[0] = False
+            raise OSError(fault_errno, os.strerror(fault_errno), file)
+        return builtins.open(file, *a, **k)
+    try:
+        s = rig.facade(512)
+        s.testunitready()
+        devmod.open = failing_open
+        new = rig.node.plug()
+        armed[0] = True
+        where = "%s after a re-plug whose first re-open failed with errno %d" % (method, fault_errno)
+        try:
+            s.testunitready()
+            oc = "returned normally"
+        except OSError:
+            oc = None
+        except Exception as e:   # noqa: BLE001
+            oc = "raised %s: %s" % (type(e).__name__, e)
+        if armed[0]:
+            return [("recovery/harness", "the library did not re-open the node after the re-plug (fault never fired)")]
+        if oc is not None:
+            out.append(("recovery/failed_open_not_reported", "%s: the call during which open() failed %s" % (where, oc)))
+        n0 = len(new.log)
+        try:
+            cmd = F.call(s, method)
+        except Exception as e:   # noqa: BLE001
+            out.append(("recovery/next_call_raises", "%s: the next call raised %s: %s" % (where, type(e).__name__, e)))
+            return out
+        if len(new.log) - n0 != 1:
+            out.append(("recovery/submissions", "%s: the next call reached the new node's device %d times" % (where, len(new.log) - n0)))
+        elif new.log[-1]["cdb"] != bytes(cmd.cdb) or (len(cmd.datain) and new.log[-1]["datain_id"] != id(cmd.datain)):
+            out.append(("recovery/other_command", "%s: the device saw CDB %s, the returned command carries %s" % (where, new.log[-1]["cdb"].hex(), bytes(cmd.cdb).hex())))
+        if obs is not None:
+            obs.append((method, len(new.log) - n0))
+    finally:
+        if "open" in vars(devmod):
+            del devmod.open
+        rig.close()
+    return out
+
+
 def run_case(case, obs=None):
     if case[0] == "fault":
         return run_fault(case, obs)
     if case[0] == "transport":
         return run_transport(case, obs)
+    if case[0] == "recovery":
+        return run_recovery(case, obs)
     method, st, kwj, variant = case
     name, key, base_args = F.FACADE[method]
     from pyscsi.pyscsi.scsi import SCSI
@@ -448,11 +525,27 @@ def replay(case):
 
 
 def partitions(tier):
-    return [[m] for m in F.FACADE] + [["transport", tr, m] for tr in ("sgio", "iscsi") for m in ("read10", "read12", "read16", "write10", "write12", "write16")]
+    return ([[m] for m in F.FACADE] + [["transport", tr, m] for tr in ("sgio", "iscsi") for m in ("read10", "read12", "read16", "write10", "write12", "write16")]
+            + [["recovery"]])
 
 
 def run_partition(part, tier, seed):
     acc = Acc(seed)
+    if part[0] == "recovery":
+        for m in RECOVERY_METHODS:
+            for en in (13, 24, 16):          # EACCES, EMFILE, EBUSY
+                case = ["recovery", m, en]
+                acc.case(case, nontrivial=True, key=repr(case))
+                obs = []
+                try:
+                    v = run_case(case, obs)
+                except Exception:
+                    import traceback
+                    v = [("harness_error", traceback.format_exc()[-600:])]
+                for k, w in v:
+                    acc.violation(k, w, case)
+                acc.outcome((repr(case), tuple(obs), tuple(k for k, _ in v)))
+        return acc
     if part[0] == "transport":
         for nblk in XFER_BLOCKS:
             case = ["transport", part[1], part[2], nblk]
@@ -491,7 +584,7 @@ def run_partition(part, tier, seed):
                         kw = dict(req)
                         for o in subset:
                             kw[o] = OPTVALS[o][vi] if o in OPTVALS else 1
-                        for variant in (0, 1):
+                        for variant in (0, 1, 2, 3, 4, 5, 6, 7, 8, 9):
                             case = [method, st, kw, variant]
                             obs = []
                             try:
